@@ -17,13 +17,9 @@ Definition C12_ok (target : N) (accepted panicked view_same : bool) (len max_sin
   negb panicked && alloc_ok len max_single &&
   (if (target =? 0) && negb accepted then view_same else true).
 
-Definition verdict_c12 (reg : registry) (target : N) (f : format) (kv : option kind) (b : list byte)
+Definition verdict_c12 (reg : registry) (target : N) (f : format) (b : list byte)
            (accepted panicked view_same : bool) (max_single : N) : N :=
   let len := N.of_nat (length b) in
   if C12_ok target accepted panicked view_same len max_single
   then (if Bool.eqb (predict reg target f b) accepted then 0 else 1)
-  else if panicked && match kv with Some k => known_kv_mismatch reg k b | None => false end then 100
   else 2.
-
-Definition kind_of_tag (t : N) : option kind :=
-  match t with 0 => Some KGet | 1 => Some KSet | 2 => Some KDelete | 3 => Some KExists | 4 => Some KList | _ => None end.
